@@ -5,16 +5,20 @@ register("C04",
          theorems=["GtModel.C04.kvp_protocol", "GtModel.C04.fixedLen_protocol",
                    "GtModel.C04.repeat_until_tightened_terminates", "GtModel.C04.editCollection_protocol",
                    "GtModel.C04.engine_protocol_partial",
-                   "GtModel.C04.engine_protocol_structural", "GtModel.C04.bounds_sound", "GtModel.C04.observed_step",
+                   "GtModel.C04.engine_protocol_no_multiset", "GtModel.C04.editDistance_protocol",
+                   "GtModel.C04.editDistance_final_is_greedy", "GtModel.C04.mkEdit_invariant",
+                   "GtModel.C04.mkEdit_initial_bounds", "GtModel.C04.engine_protocol", "GtModel.C04.bounds_sound", "GtModel.C04.observed_step",
                    "GtModel.C04.converges", "GtModel.C04.editDistance_fringe_lb_monotone",
                    "GtModel.C04.editDistance_fringe_lb_sound", "GtModel.C04.editDistance_final_le_total"],
          streams=["trace"],
-         assumptions=["AtomHyp: EditDistance / MultiSetEdit+matcher machines obey "
+         assumptions=["AtomHyp: MultiSetEdit+matcher machines obey "
                       "the protocol whenever their children do (hypothesis of engine_protocol_partial; validated by the "
                       "passive monitor of the trace stream on every bounded object of every run)",
                       "make_distinct step counts and assignment-solver answers are oracles recorded from the run"],
          trusted=["harness/lazyinst.py (passive recorder and per-object protocol checker)"],
-         partial="engine_protocol proved for const/kvp/str/fixed/coll(EditCollection) machines over atoms that obey the "
-                 "protocol, unconditionally when there are no atoms; editDistance_protocol and matcher/multiset_protocol "
-                 "are hypotheses (AtomHyp); the static facts behind EditDistance's interval are proved; "
+         partial="engine_protocol proved with NO hypothesis on the machine for from.edits(to) without MultiSetEdit "
+                 "(no DictNode on the from side, distinct keys, to-side in the domain fkOK of the static "
+                 "FixedKeyDictNodeEdit bound; outside fkOK the property is false: finding D24 / coll-ub); "
+                 "engine_protocol_no_multiset: every machine of that fragment satisfying the structural invariant; "
+                 "over MultiSetEdit atoms it is conditional on matcher/multiset_protocol (AtomHyp); "
                  "'progress => strictly shrunk' holds for an observer that read bounds() before the step")
